@@ -97,3 +97,60 @@ Proof.
     + unfold wf_conn, FrameReadTimeoutSec in Hwf. cbn [ph age idle] in Hwf.
       destruct Hp as [Hp|Hp]; subst p; destruct f; cbn [step ph age idle] in *; try congruence; lia.
 Qed.
+
+Lemma ticks_nonneg es : 0 <= ticks es.
+Proof. unfold ticks. lia. Qed.
+
+Lemma ticks_cons_tick es : ticks (Tick :: es) = 1 + ticks es.
+Proof. unfold ticks. cbn [filter is_recv negb length]. lia. Qed.
+
+Lemma ticks_cons_recv f es : ticks (Recv f :: es) = ticks es.
+Proof. unfold ticks. cbn [filter is_recv negb length]. reflexivity. Qed.
+
+Lemma fresh_wf : wf_conn fresh.
+Proof. unfold wf_conn, fresh, HandshakeTimeoutSec. cbn [ph age idle]. lia. Qed.
+
+(* the deadline component: a connection that only stalls in a handshake phase - seconds pass, bytes trickle in that
+   complete nothing - is closed exactly when HandshakeTimeoutSec seconds have passed since the accept: not later (the
+   slot is given back) and not earlier (a slow honest peer has the whole timeout); until then it stays where it is *)
+Lemma stalled_closed_iff es : forall c, wf_conn c -> (ph c = PEnc \/ ph c = PProto) -> Forall stalls es ->
+  (ph (run c es) = PClosed <-> HandshakeTimeoutSec - age c <= ticks es) /\
+  (ph (run c es) <> PClosed -> ph (run c es) = ph c).
+Proof.
+  induction es as [|e es IH]; intros c Hwf Hp Hst.
+  - cbn [run]. unfold ticks. cbn [filter length]. unfold wf_conn, HandshakeTimeoutSec in *.
+    destruct Hwf as [Ha [Hi Hq]]. split; [|reflexivity].
+    destruct Hp as [E|E]; rewrite E in *; split; intros Hx; try discriminate; lia.
+  - inversion Hst as [|e' es' He Hes]; subst. cbn [run].
+    destruct He as [He|He]; subst e.
+    + (* a second passes *)
+      rewrite ticks_cons_tick.
+      destruct (HandshakeTimeoutSec <=? age c + 1) eqn:E.
+      * assert (Hc : ph (step c Tick) = PClosed).
+        { destruct c as [p a i]; cbn [ph age idle] in *. destruct Hp as [Hp|Hp]; subst p; cbn [step ph age idle]; rewrite E; reflexivity. }
+        rewrite (closed_stays _ es Hc). pose proof (ticks_nonneg es). apply Z.leb_le in E.
+        split; [split; [intros _; lia|reflexivity]|intros Hx; congruence].
+      * assert (Hs : step c Tick = mkConn (ph c) (age c + 1) 0).
+        { destruct c as [p a i]; cbn [ph age idle] in *. destruct Hp as [Hp|Hp]; subst p; cbn [step ph age idle]; rewrite E; reflexivity. }
+        assert (Hwf' : wf_conn (step c Tick)) by (apply step_wf; exact Hwf).
+        rewrite Hs in *. specialize (IH _ Hwf' Hp Hes). cbn [ph age] in IH. destruct IH as [IH1 IH2].
+        split; [|exact IH2]. rewrite IH1. lia.
+    + (* bytes that complete nothing *)
+      rewrite ticks_cons_recv.
+      assert (Hs : step c (Recv FPartial) = c).
+      { destruct c as [p a i]; cbn [ph] in *. destruct Hp as [Hp|Hp]; subst p; reflexivity. }
+      rewrite Hs. apply IH; assumption.
+Qed.
+
+(* no state before "peer added" lasts longer than the handshake timeout, whatever the peer sends at whatever pace *)
+Lemma no_pre_peer_state_outlasts_timeout es : HandshakeTimeoutSec <= ticks es ->
+  ph (run fresh es) <> PEnc /\ ph (run fresh es) <> PProto.
+Proof.
+  intros H. apply handshake_deadline; [exact fresh_wf|left; reflexivity|]. unfold fresh. cbn [age]. lia.
+Qed.
+
+(* without the deadline on the protocol handshake a peer that is silent after the encryption handshake is never closed *)
+Lemma proto_deadline_is_load_bearing n : forall a, ph (run_nodl (mkConn PProto a 0) (repeat Tick n)) = PProto.
+Proof.
+  induction n as [|n IH]; intros a; [reflexivity|]. cbn [repeat run_nodl step_nodl ph age]. apply IH.
+Qed.
